@@ -12,6 +12,7 @@ import ast
 
 from .common import Ctx, Finding, Result
 from ..index import norm
+from .. import paths
 
 SAFE_BUILTINS = {"len", "type", "id", "str", "repr", "int", "float", "bool", "hex"}
 COPY_BUILTINS = {"dict", "list", "tuple", "sorted", "set"}
@@ -119,6 +120,12 @@ def _offences(ctx, e, fi, params, consts_ok=True):
                     if custom:
                         out.append((v.value, "is rendered eagerly inside an f-string through %s.__str__" % custom[0][1].rsplit(".", 1)[-1]))
         elif isinstance(n, ast.Subscript) and isinstance(n.ctx, ast.Load) and not isinstance(n.value, (ast.Constant, ast.Tuple, ast.List, ast.Dict)):
+            # `xs[0]` inside `for x in xs:` - the loop body only runs when there is a first element
+            if isinstance(n.value, ast.Name) and isinstance(n.slice, ast.Constant) and n.slice.value == 0 and \
+                    any(isinstance(l_, ast.For) and isinstance(l_.iter, ast.Name) and l_.iter.id == n.value.id and any(paths.within(p, e, b_) for b_ in l_.body)
+                        for l_ in paths.enclosing_loops(p, e, fi)) and \
+                    all(k_ == "assign" and isinstance(b_[1], (ast.List, ast.ListComp, ast.Tuple)) for k_, b_ in t.local_bindings(fi, n.value.id)):
+                continue
             out.append((n, "indexes / slices a value (None, a shorter value or a missing key make the log statement fail)"))
         elif isinstance(n, ast.Compare) and any(isinstance(o, (ast.Eq, ast.NotEq, ast.In, ast.NotIn, ast.Lt, ast.LtE, ast.Gt, ast.GtE)) for o in n.ops):
             sides = [n.left] + list(n.comparators)
